@@ -117,7 +117,11 @@ func runC14(o *opts) (*summary, error) {
 	if thorough {
 		n = 600
 	}
-	put := func(r M, class string) { w.put(r, class, fmt.Sprintf("%s/%v/%v", zone, r["type"], r["k"])) }
+	put := func(r M, class string) {
+		// distinct cases: (zone, type, value or text)
+		id, _ := json.Marshal([]any{r["v"], r["text"], r["s"]})
+		w.put(r, class, fmt.Sprintf("%s/%v/%s", zone, r["type"], id))
+	}
 
 	// ---- zone dependent: date, date-time ---------------------------------------------------------
 	// (a third of the dates fall on days on which this zone changes its offset - among them the days without a midnight)
